@@ -9,6 +9,8 @@ def _sig(c, v):
             return "https-registered-route-404:1"
         if d["listener"] == "https" and mws and not d.get("https_builder_has_UsingMiddleWare"):
             return "https-middleware-not-configurable:1"
+        if "overlapping-requests" in c["tags"]:
+            return "overlapping-requests-mixed-up:1"
         if "logreq" in mws and d["request"]["body"]:
             if "unsized-body" in c["tags"]:
                 return "unsized-body-after-logrequest:1"
@@ -23,7 +25,7 @@ SPEC = {
         "sigfn": _sig,
         "kind": "coqcases", "module": "CorrC17", "harness": "c17", "corr": "Run/CorrC17.v (model of middleware + route table vs the running server.Server)",
         "timeout": 2400,
-        "rule": "each case = one real exchange (HTTP, HTTPS/TLS with a certificate generated at run time, or one gRPC call / reflection listing) against a started server.Server on loopback, re-run in Coq on the model: the monitor checks routing against the AddRoute call list, the enter/exit order of recording middleware, and equality with the run WITHOUT LogRequest/LogResponse; then the full event log incl. the logger's messages is compared with the model. Generation: the refutation witnesses first; every subset of 6 (method,path) pairs x 12 requests x both listeners; every middleware list over {LogRequest, LogResponse, rec1, rec2} up to a length bound x 4 handler programs (echo, partial reads, headers/status, empty); a second routing universe (all subsets of GET/PUT /a/b, GET /a/b/c, DELETE /p0/q, OPTIONS /p0 x 20 requests: prefix-sharing paths, HEAD on GET, other methods); configuration call SEQUENCES (every sequence up to a length bound over {AddRoute x3, GetRoutes} containing both, adds through the builder and through the config object returned by Config.GetHttp[s]ServerConfig(), GetMiddleware/TLS getters, middleware set after reads or replacing an earlier one); seeded random configurations (routes over 7 methods x 8 paths, handler programs, scripted middleware, headers, bodies; half of them as call sequences with read accessors); request bodies sent with Content-Length and WITHOUT (chunked HTTP/1.1, unsized HTTP/2), incl. 300 B - 70 kB (thorough 1.1 MB) bodies; every subset of 5 gRPC descriptors with re-registration, initializers, reflection and the gRPC config's getters called between registrations. distinct = by (listener, AddRoute calls, middleware list, request) resp. (registrations, called service); non-trivial = the listener has at least one route / the server at least one registration.",
+        "rule": "each case = one real exchange (HTTP, HTTPS/TLS with a certificate generated at run time, or one gRPC call / reflection listing) against a started server.Server on loopback, re-run in Coq on the model: the monitor checks routing against the AddRoute call list, the enter/exit order of recording middleware, and equality with the run WITHOUT LogRequest/LogResponse; then the full event log incl. the logger's messages is compared with the model. Generation: the refutation witnesses first; every subset of 6 (method,path) pairs x 12 requests x both listeners; every middleware list over {LogRequest, LogResponse, rec1, rec2} up to a length bound x 4 handler programs (echo, partial reads, headers/status, empty); a second routing universe (all subsets of GET/PUT /a/b, GET /a/b/c, DELETE /p0/q, OPTIONS /p0 x 20 requests: prefix-sharing paths, HEAD on GET, other methods); configuration call SEQUENCES (every sequence up to a length bound over {AddRoute x3, GetRoutes} containing both, adds through the builder and through the config object returned by Config.GetHttp[s]ServerConfig(), GetMiddleware/TLS getters, middleware set after reads or replacing an earlier one); seeded random configurations (routes over 7 methods x 8 paths, handler programs, scripted middleware, headers, bodies; half of them as call sequences with read accessors); request bodies sent with Content-Length and WITHOUT (chunked HTTP/1.1, unsized HTTP/2), incl. 300 B - 70 kB (thorough 1.1 MB) bodies; OVERLAPPING requests (8, thorough 16, at once through each of 5 middleware lists; every handler waits at a barrier until all handlers have been entered and only then reads its body; recorder events are kept per request); every subset of 5 gRPC descriptors with re-registration, initializers, reflection and the gRPC config's getters called between registrations. distinct = by (listener, AddRoute calls, middleware list, request) resp. (registrations, called service); non-trivial = the listener has at least one route / the server at least one registration.",
     }],
     "trusted": [
         "net/http (ServeMux matching of literal 'METHOD /path' patterns, ResponseWriter header-snapshot semantics, TLS, HTTP/1.1 and HTTP/2 framing) and grpc-go dispatch/reflection are modelled by contract; the contract is exercised by this run's cases only",
